@@ -72,6 +72,7 @@ def main():
     res['confirmed'] = bool(ok)
     res['repo_head'] = head
     res['what_i_ran'] = [meta['demo_cmd'] + '  (clean tree, then with patch.diff applied)'] + (['cargo nextest run --workspace --no-fail-fast --offline --test-threads 8  (with patch.diff applied; the demo test file is present and is the only failure allowed)'] if do_suite else [])
+    meta = json.load(open(os.path.join(d, 'meta.json')))    # re-read: seedrun may have written results meanwhile
     meta['confirmed'] = res
     json.dump(meta, open(os.path.join(d, 'meta.json'), 'w'), indent=1)
     sh('git checkout -- . && git clean -fdq -e target')
